@@ -3,6 +3,10 @@
 import json
 props=[json.loads(l) for l in open('/verif/properties.jsonl')]
 claimed={
+ "C04": dict(level="model_checking",
+   text="Termination and crash-freedom decided by bounded execution with unwinding assertions as the property: every expansion entry point runs from SSA on hostile worlds (ids of every kind, cycles, dangling documents and pointers, string/number/array/boolean/null targets, self-referring parameters/responses/path items) with SkipSchemas/ContinueOnError symbolic; an interpreted panic or an overrun of the stated work bound (2.5e6 instructions, depth 300; terminating runs need well under 1e6) is a candidate that is replayed natively under a watchdog. The relative-id non-termination is a known finding with exact regions.",
+   note="Trusted: SSA executor, z3, models as C02. Bounds: 3 documents, 2-3 slots; not the 'random large graphs' of the property text.",
+   design="4 C04", technique="bounded symbolic execution of go/ssa with unwinding assertions as the property + SMT (z3), watchdog replay"),
  "C02": dict(level="model_checking",
    text="The real ExpandSpec (expander, loader, normaliser, cache, jsonpointer, swag) is executed from SSA on every reference graph of a bounded multi-document world; AbsoluteCircularRef and all model-map iteration orders are symbolic and decided per path by the solver; the oracle is an independent coinductive bisimulation of input and output unfoldings. This layer concretises $ref strings at parse points (stated in DESIGN 3): exhaustive over the bounded graphs, symbolic over options and orders. The wrong-document second hop of parameter/response chains is a known finding.",
    note="Trusted: SSA executor, z3, M-json/M-reflect models, net/url as RFC 3986 reference in the oracle. Bounds: 3 documents, 3/4 slots, 12 keyword positions, 2/3 spellings.",
